@@ -18,6 +18,7 @@ import (
 	"encoding/json"
 	"errors"
 	"fmt"
+	"net/http"
 	"os"
 	"runtime"
 	"runtime/debug"
@@ -47,9 +48,10 @@ type step struct {
 type script struct {
 	ID    string `json:"id"`
 	Cf    cfg    `json:"cf"`
-	Cb    bool   `json:"cb"` // install a re-entrant state-change callback (like the balancer's)
-	MR0   bool   `json:"mr0"` // leave max_requests unset (0) in the configuration: the balancer's default applies
-	Via   string `json:"via"` // "lb": breaker built by the real NewLoadBalancer from a validated config
+	Cb    bool   `json:"cb"`    // install a re-entrant state-change callback (like the balancer's)
+	MR0   bool   `json:"mr0"`   // leave max_requests unset (0) in the configuration: the balancer's default applies
+	Via   string `json:"via"`   // "lb": breaker built by the real NewLoadBalancer from a validated config
+	Abort bool   `json:"abort"` // a panicking call panics with http.ErrAbortHandler (what an aborted proxied response does)
 	Steps []step `json:"steps"`
 }
 
@@ -218,6 +220,9 @@ func runScript(sc script) {
 						return nil
 					case "err":
 						return errFn
+					}
+					if sc.Abort {
+						panic(http.ErrAbortHandler)
 					}
 					panic("fn panics")
 				})
